@@ -60,7 +60,7 @@ func (c *Ctx) mustCrossFrom(rule, construct string, from ssa.Instruction, target
 func acceptReturns(fn *ssa.Function, idx int) []ssa.Instruction {
 	var out []ssa.Instruction
 	for _, r := range returnsOf(fn) {
-		if idx < len(r.Results) && errNilness(r.Results[idx], r.Block(), 0) != neverNil {
+		if idx < len(r.Results) && errNilness(retVal(r, idx), r.Block(), 0) != neverNil {
 			out = append(out, r)
 		}
 	}
@@ -74,7 +74,7 @@ func valueReturns(fn *ssa.Function, idx int) []ssa.Instruction {
 		if idx >= len(r.Results) {
 			continue
 		}
-		v := r.Results[idx]
+		v := retVal(r, idx)
 		if isNilConst(v) {
 			continue
 		}
